@@ -30,6 +30,18 @@ CHECKS = {
     'C20': ('3/C20', 'explicit-state BFS to closure over the real Markov step functions with the chooser answering every random draw; exhaustive enumeration of all random walks / shuffle outcomes of the public generators on a bounded grid',
             'The Markov chain is explored as a transition system for n<=6 (thorough 7) in both modes: all 9366/4683 reachable states at n=6, every (element, move) transition, dense-bucket invariant in every state, and every reachable state converted to buckets through generate_rankings; the public generators are run under every random walk for (n<=3,m<=2,steps<=2), (n<=2,steps<=4) etc. and every shuffle outcome.',
             'random draws reach the library only through the random module (routed to the chooser; anything else raises); n=0/m=0 not claimed'),
+    'C10': ('3/C10', 'bounded-exhaustive enumeration of datasets x schemes x both flags against a reference scan of the unified input rankings',
+            'Every dataset of DS(3,2), DS(2,3) (19 schemes) and DS(4,2), DS(3,3) (5 schemes): returned rankings must be unified input rankings of minimal reference score, exactly the set of distinct minima when all are requested, and incomplete data with a scheme that is not an exact positive multiple of the unifying scheme must be refused.',
+            'small-scope hypothesis; a refusal may be any deliberate exception'),
+    'C11': ('3/C11', 'stateless exhaustive exploration of the whole pivot-choice tree (choice controller owns random.choice) for every dataset x scheme, compared with a reference KwikSort fed the recorded pivots',
+            'For every dataset of DS(3,2), DS(4,1), DS(2,3) x 16 schemes and DS(4,2), DS(3,3) x 3 schemes ALL pivot schedules are executed (about 9e5 executions): each result equals the reference simulation under the same pivots, and when the cheapest-placement relation is an antisymmetric weak order every schedule returns it.',
+            'pivot draws reach the library only via random.choice (other sources raise); n<=4 (thorough 5)'),
+    'C12': ('3/C12', 'bounded-exhaustive enumeration of datasets x 27 schemes x both variants x both flags against a reference Borda in exact rationals',
+            'Every dataset of the quick blocks under the four accepted families and their multiples {1,2,3,.5} plus 11 foreign schemes (including one with the B vector of the unifying scheme and another T): groups in increasing exact mean, tied iff equal; incomplete data with a foreign scheme must raise ScoringSchemeNotHandledException.',
+            'small-scope hypothesis'),
+    'C13': ('3/C13', 'bounded-exhaustive enumeration of datasets x 16 schemes against victories/equalities/defeats recomputed from the reference cost table',
+            'Every dataset of DS(3,2), DS(2,3), DS(4,1) x 16 schemes and DS(4,2) x 4 schemes: ranking by decreasing reference Copeland score, feature dictionaries keyed by exactly the universe with the reference numbers, counts sum to n-1 and scores to n(n-1)/2.',
+            'small-scope hypothesis; dyadic penalties so cost comparisons are exact'),
 }
 
 PENDING = {}
